@@ -200,7 +200,7 @@ func runC08(w *W) {
 	}
 	nSeq := 30000
 	if th {
-		nSeq = 400000
+		nSeq = 1500000
 	}
 	for k := 0; k < nSeq; k++ {
 		rr := r.Split()
